@@ -20,7 +20,7 @@ for p, fs in sorted(add.items()):
     n = 0
     for f in fs:
         if f not in have:
-            c['units'].append({"mod": 'v2' if 'go-car/v2' in f else '.', "func": f})
+            c['units'].append({"mod": 'cmd' if 'go-car/cmd' in f else ('v2' if 'go-car/v2' in f else '.'), "func": f})
             n += 1
     json.dump(c, open(path, 'w'), indent=1)
     print(p, '+%d units' % n)
